@@ -39,6 +39,12 @@
      ObsOK   every observation computed the way the code computes it (linear/binary search,
              Inspect loop, First/Rest iteration, object.Rest dispatch) equals the abstract one
      EqOK    Cmp-style equality of `m` with each literal operand <=> abstract equality
+     ConstOK   held by a constant: setting it again to the same map built another way is accepted, to a
+               different map refused; K[k] = v / del(K[k]) are refused unless they change nothing
+               (named deviation IdenticalByRep violates it)
+     EarlierOK no value is made by writing into storage where another value's pairs live: big maps carry
+               their capacity explicitly (spare, live); named deviation AppendInPlace violates it
+     CapOK     spare / live within bounds
 
    Key order: the documented order of object.Cmp, stated here (KCmp): numbers (integers and
    floats together, by mathematical value) < booleans (false < true) < nil < strings
